@@ -16,22 +16,23 @@ EXTENDS Integers, Sequences, FiniteSets, TLC
 CONSTANTS Dev
 None == "none"
 VARIABLES sh, now, selStr, chooser, active, started, t0, out, life,
-          inRun, rt0       \* inside a run() call; the origin of run()'s own timer
-slvars == <<sh, now, selStr, chooser, active, started, t0, out, life, inRun, rt0>>
+          inRun, rt0,      \* inside a run() call; the origin of run()'s own timer
+          exitReq          \* endCompetition() was called: a run() loop ends at its next head; start/periodic/disable are unaffected
+slvars == <<sh, now, selStr, chooser, active, started, t0, out, life, inRun, rt0, exitReq>>
 \* life[m] : "idle" | "enabled" - a mode's on_enable/on_disable bracket
 
 Init(shape) ==
     /\ sh = shape /\ now = 0 /\ selStr = "" /\ chooser = shape.defmode /\ active = None /\ started = FALSE /\ t0 = 0
-    /\ out = <<>> /\ life = [m \in shape.modes |-> "idle"] /\ inRun = FALSE /\ rt0 = 0
+    /\ out = <<>> /\ life = [m \in shape.modes |-> "idle"] /\ inRun = FALSE /\ rt0 = 0 /\ exitReq = FALSE
 
-Tick(d) == now' = now + d /\ out' = <<>> /\ UNCHANGED <<sh, selStr, chooser, active, started, t0, life, inRun, rt0>>
+Tick(d) == now' = now + d /\ out' = <<>> /\ UNCHANGED <<sh, selStr, chooser, active, started, t0, life, inRun, rt0, exitReq>>
 \* the dashboard's "Auto Selector" string
-SetString(s) == selStr' = s /\ out' = <<>> /\ UNCHANGED <<sh, now, chooser, active, started, t0, life, inRun, rt0>>
+SetString(s) == selStr' = s /\ out' = <<>> /\ UNCHANGED <<sh, now, chooser, active, started, t0, life, inRun, rt0, exitReq>>
 \* a selection made on the chooser widget; "None" - and, with wpilib's SendableChooser, any unknown
 \* option - selects no mode
 ChooserSelect(s) ==
     /\ chooser' = IF s \in sh.modes THEN s ELSE None
-    /\ out' = <<>> /\ UNCHANGED <<sh, now, selStr, active, started, t0, life, inRun, rt0>>
+    /\ out' = <<>> /\ UNCHANGED <<sh, now, selStr, active, started, t0, life, inRun, rt0, exitReq>>
 
 Chosen == IF selStr \in sh.modes THEN selStr ELSE chooser
 \* start() without a disable() since the previous start() is allowed ("it is okay to not call disable() if you do
@@ -44,11 +45,13 @@ Start(run) ==
               ELSE started' = TRUE /\ t0' = now /\ UNCHANGED <<inRun, rt0>>
     /\ out' = IF Chosen # None THEN <<[m |-> Chosen, k |-> "on_enable"]>> ELSE <<>>
     /\ life' = [m \in sh.modes |-> IF m = Chosen THEN "enabled" ELSE IF m = active THEN "idle" ELSE life[m]]
-    /\ UNCHANGED <<sh, now, selStr, chooser>>
+    /\ UNCHANGED <<sh, now, selStr, chooser, exitReq>>
+\* endCompetition(): only a flag; the mode that is active still gets its on_disable() from the next disable()
+EndComp == exitReq' = TRUE /\ out' = <<>> /\ UNCHANGED <<sh, now, selStr, chooser, active, started, t0, life, inRun, rt0>>
 Periodic(run) ==
-    /\ IF run THEN inRun ELSE started /\ ~inRun
+    /\ IF run THEN inRun /\ ~exitReq ELSE started /\ ~inRun
     /\ out' = IF active # None THEN <<[m |-> active, k |-> "on_iteration", t |-> now - (IF run THEN rt0 ELSE t0)]>> ELSE <<>>
-    /\ UNCHANGED <<sh, now, selStr, chooser, active, started, t0, life, inRun, rt0>>
+    /\ UNCHANGED <<sh, now, selStr, chooser, active, started, t0, life, inRun, rt0, exitReq>>
 \* last: the disable() run() itself makes when the autonomous period is over
 Disable(last) ==
     /\ last => inRun
@@ -56,17 +59,18 @@ Disable(last) ==
     /\ life' = IF active # None THEN [life EXCEPT ![active] = "idle"] ELSE life
     /\ active' = IF "no_clear_on_disable" \in Dev THEN active ELSE None
     /\ inRun' = (IF last THEN FALSE ELSE inRun)
-    /\ UNCHANGED <<sh, now, selStr, chooser, started, t0, rt0>>
+    /\ UNCHANGED <<sh, now, selStr, chooser, started, t0, rt0, exitReq>>
 
 ViaRun(ev) == "via" \in DOMAIN ev /\ ev.via = "run"
 IsLast(ev) == "last" \in DOMAIN ev /\ ev.last
 EvEnabled(ev) == CASE ev.e = "start" -> ~inRun
-                   [] ev.e = "periodic" -> IF ViaRun(ev) THEN inRun ELSE started /\ ~inRun
+                   [] ev.e = "periodic" -> IF ViaRun(ev) THEN inRun /\ ~exitReq ELSE started /\ ~inRun
+                   [] ev.e = "endcomp" -> TRUE
                    [] ev.e = "disable" -> IsLast(ev) => inRun
                    [] ev.e \in {"tick", "str", "choose"} -> TRUE [] OTHER -> FALSE
 EvNext(ev) == CASE ev.e = "tick" -> Tick(ev.d) [] ev.e = "str" -> SetString(ev.s) [] ev.e = "choose" -> ChooserSelect(ev.s)
                 [] ev.e = "start" -> Start(ViaRun(ev)) [] ev.e = "periodic" -> Periodic(ViaRun(ev))
-                [] ev.e = "disable" -> Disable(IsLast(ev))
+                [] ev.e = "disable" -> Disable(IsLast(ev)) [] ev.e = "endcomp" -> EndComp
 
 (* C14 (lifecycle part) *)
 \* only the active mode ever receives a callback
